@@ -22,6 +22,7 @@ var (
 	flagOut     = flag.String("out", "", "work directory for SMT files")
 	flagV       = flag.Bool("v", false, "verbose")
 	flagOnly    = flag.String("only", "", "substring filter on obligation names")
+	flagFile    = flag.String("file", "", "replay file")
 	flagNoEvid  = flag.Bool("noevidence", false, "do not write the evidence file")
 )
 
@@ -65,6 +66,8 @@ func main() {
 		os.Exit(cmdDump())
 	case "list":
 		os.Exit(cmdList())
+	case "replay":
+		os.Exit(cmdReplay())
 	default:
 		fmt.Fprintln(os.Stderr, "unknown command", cmd)
 		os.Exit(2)
@@ -225,6 +228,7 @@ func cmdCheck() int {
 			continue
 		}
 		vc := newFuncVC(e, fn)
+		vc.outDir = outDir
 		vc.generate()
 		vc.finish()
 		vcs = append(vcs, vc)
@@ -559,4 +563,38 @@ func loadPropMeta(prop string) map[string]interface{} {
 		return nil
 	}
 	return m
+}
+
+// cmdReplay re-runs the Go test recorded in a replay file against the current tree.
+func cmdReplay() int {
+	data, err := os.ReadFile(*flagFile)
+	if err != nil {
+		fmt.Fprintln(os.Stderr, err)
+		return 2
+	}
+	var m struct {
+		Obligation string      `json:"obligation"`
+		Reason     string      `json:"reason"`
+		Replay     string      `json:"replay"`
+		Input      *replayFile `json:"failing_input"`
+	}
+	if err := json.Unmarshal(data, &m); err != nil {
+		fmt.Fprintln(os.Stderr, err)
+		return 2
+	}
+	fmt.Println("obligation:", m.Obligation)
+	fmt.Println("reason:", m.Reason)
+	if m.Input == nil || m.Input.TestSource == "" {
+		fmt.Println("no failing input was found for this obligation; solver output is in the replay file")
+		fmt.Println(m.Replay)
+		return 1
+	}
+	fmt.Println("inputs:", m.Input.Inputs)
+	out, err := runReplayTest(*flagRepo, m.Input)
+	fmt.Println(out)
+	if err != nil {
+		fmt.Println("replay error:", err)
+	}
+	fmt.Println("recorded verdict:", m.Input.Verdict)
+	return 1
 }
